@@ -244,6 +244,11 @@ func (dsc *dataStoreCommand) setRange(keyName string, offset int, substring stri
 	dsc.lock()
 	defer dsc.unlock()
 
+	if offset < 0 {
+		result.data = respErrorString("ERR offset is out of range")
+		return
+	}
+
 	var setBytes []byte
 	expiration := maxTime
 	oldSk, exists := dsc.getKeyObjectUnlocked(keyName)
@@ -256,6 +261,18 @@ func (dsc *dataStoreCommand) setRange(keyName string, offset int, substring stri
 		expiration = time.Time(oldSk.expiresAt)
 	} else {
 		setBytes = []byte{}
+	}
+
+	if len(substring) == 0 {
+		// nothing to write: the value (or its absence) stays as it is
+		result.data = respInt(len(setBytes))
+		return
+	}
+
+	const maxStringLength = 512 * 1024 * 1024
+	if offset > maxStringLength || offset+len(substring) > maxStringLength {
+		result.data = respErrorString("ERR string exceeds maximum allowed size (proto-max-bulk-len)")
+		return
 	}
 
 	if len(setBytes) < offset {
